@@ -6,6 +6,14 @@ in m on the phi grid of Psi4_lm (T2), identification with the associated
 Legendre functions at spin 0 for l <= 4 and the phase convention (T3), the
 conjugation symmetry for all (s, l, m) (T4), linear structure of coefficient /
 reconstruction maps (T5), decision logic of interpolate's bounds check (T6).
+Second module Props/C20b.lean: continuous orthonormality over the sphere
+(phi integral and half-angle Beta integral in general; closed form of every
+inner product for all integers; orthonormality for |s|<=2, l,l'<=12 from a
+kernel-decided integer table; norm 1 at m=+-l for all l) (T7-T10), the discrete
+Gram matrix of the Psi4_lm grid = delta_mm' x (continuous value + theta-midpoint
+error), the round-trip defect in closed form, DiscreteOrthonormal is false on
+the code's grid (T11-T15), spin 0 for ALL l (T16), scipy's linear
+RegularGridInterpolator exact at nodes / on trilinear fields / convex (T17).
 
 Tie: Model/Harm.lean is hand-written; it is compared with the real code
   * maths.sYlm at rational points (c, sn) of the unit circle (Pythagorean
@@ -23,13 +31,19 @@ Tie: Model/Harm.lean is hand-written; it is compared with the real code
     that call (the functions have no hidden state; the Lean model is a pure
     function by construction, the correspondence carries this to the code);
   * the accept / refuse decision of numerical.interpolate on dyadic-rational
-    grids and targets incl. boundary points — exactly.
+    grids and targets incl. boundary points — exactly;
+  * Model/Interp.lean (linear RegularGridInterpolator) against
+    numerical.interpolate(method='linear') on dyadic data with power-of-two
+    spacings (every float operation exact) — exactly; the extrapolation branch
+    and the compiled interval search of scipy — exactly.
 
 NOT proven (sentinel only, on the REAL code, oracle independent of model and
-code): orthonormality in l (Gauss-Legendre x trapezoid quadrature), agreement
-with an independent Wigner-d/Jacobi implementation and with scipy's ordinary
-harmonics at s = 0 up to the phase (-1)^m, decomposition of a band-limited
-synthesis, RegularGridInterpolator exactness, Psi4_lm on an injected pure mode.
+code): orthogonality in l beyond the table (l or l' > 12; Gauss-Legendre x
+trapezoid quadrature), a bound on the theta-midpoint error (hence the
+convergence rate of the round trip and of Psi4_lm on an injected pure mode),
+interpolation methods other than 'linear'.  The sentinel also keeps the
+agreement with an independent Wigner-d/Jacobi implementation and with scipy's
+ordinary harmonics at s = 0 as an independent cross-check of the model tie.
 """
 import math
 from fractions import Fraction
@@ -43,7 +57,20 @@ THEOREMS = ["AurelVerif.C20." + t for t in (
     "sum_range_exact", "phi_quadrature_orthogonal", "phi_quadrature_exact", "psi4_grid_m_orthogonal",
     "spin0_structure", "spin0_is_standard_upto_phase", "conj_symmetry_terms", "conj_symmetry",
     "coefficients_linear", "coefficients_stateless", "roundtrip_partial", "interpolate_bounds_decision", "grid_formulas")]
-LEAN_FILES = ["AurelVerif/Props/C20.lean", "AurelVerif/Lemmas/Harm.lean", "AurelVerif/Lemmas/HarmPhi.lean",
+MODULE_B = "AurelVerif.Props.C20b"
+THEOREMS_B = ["AurelVerif.C20." + t for t in (
+    "sphere_integrals", "continuous_gram_closed_form", "orthonormal_upto_12", "norm_extreme_orders_all_l",
+    "grid_gram_is_theta_midpoint", "grid_gram_defect", "roundtrip_defect_closed_form", "discrete_orthonormal_is_false",
+    "discrete_orthonormal_is_false_spin_m2",
+    "theta_midpoint_on_sines", "spin0_all_degrees", "linear_interpolation_exact")]
+LEAN_FILES = ["AurelVerif/Props/C20b.lean", "AurelVerif/Lemmas/C20Beta.lean", "AurelVerif/Lemmas/C20GramZ.lean",
+              "AurelVerif/Lemmas/C20Ortho.lean", "AurelVerif/Lemmas/C20OrthoTable.lean",
+              "AurelVerif/Lemmas/C20OrthoTableM2.lean", "AurelVerif/Lemmas/C20OrthoTableM1.lean",
+              "AurelVerif/Lemmas/C20OrthoTableZ0.lean", "AurelVerif/Lemmas/C20OrthoTableP1.lean",
+              "AurelVerif/Lemmas/C20OrthoTableP2.lean", "AurelVerif/Lemmas/C20Quad.lean", "AurelVerif/Lemmas/C20QuadS2.lean",
+              "AurelVerif/Lemmas/C20Spin0Poly.lean", "AurelVerif/Lemmas/C20Spin0.lean",
+              "AurelVerif/Lemmas/C20Interp.lean", "AurelVerif/Model/Interp.lean", "Driver/C20Interp.lean",
+              "AurelVerif/Props/C20.lean", "AurelVerif/Lemmas/Harm.lean", "AurelVerif/Lemmas/HarmPhi.lean",
               "AurelVerif/Lemmas/HarmLegendre.lean", "AurelVerif/Lemmas/HarmStd.lean",
               "AurelVerif/Spec/Harm.lean", "AurelVerif/Model/Harm.lean", "Driver/C20.lean"]
 SPINS = (-2, -1, 0, 1, 2)
@@ -445,6 +472,209 @@ def corr_bounds(ctx):
 
 
 # --------------------------------------------------------------------------
+# exact correspondence: linear RegularGridInterpolator vs Model/Interp.lean
+#
+# All inputs are dyadic rationals with few bits, grid spacings are powers of
+# two, so every float operation of find_indices / _evaluate_linear
+# ((x - g[i]) / (g[i+1] - g[i]), 1 - t, the three weight products, value *
+# weight, the 8 additions) is exact in binary64 (worst case < 30 significant
+# bits) and float(result) must equal the model's rational EXACTLY.
+
+INTERP_SPACINGS = (Fraction(1, 4), Fraction(1, 2), Fraction(1), Fraction(2))
+
+
+def interp_q(q):
+    return "%d/%d" % (q.numerator, q.denominator)
+
+
+def interp_grid(rng, n):
+    """strictly ascending, non-uniform, spacings powers of two, nodes multiples of 1/4"""
+    g = [Fraction(rng.randint(-16, 16), 4)]
+    for _ in range(n - 1):
+        g.append(g[-1] + rng.choice(INTERP_SPACINGS))
+    return g
+
+
+def interp_coord(rng, g, cell, kind):
+    """one target coordinate inside the grid axis `g`.
+    kind: 'node' (node `cell` or its right neighbour), 'first', 'last', 'in' (inside cell `cell`,
+    multiples of 1/16 of the spacing, end points excluded)"""
+    if kind == "first":
+        return g[0]
+    if kind == "last":
+        return g[-1]
+    if kind == "node":
+        return g[cell + rng.randint(0, 1)]
+    return g[cell] + (g[cell + 1] - g[cell]) * Fraction(rng.randint(1, 15), 16)
+
+
+def interp_case(rng, full_cells):
+    """one grid + nodal values + a batch of targets inside the grid.
+    Returns (grids, vals(flat C-order), targets [(x, y, z, tag)])"""
+    ns = [rng.randint(2, 4) for _ in range(3)]
+    grids = [interp_grid(rng, n) for n in ns]
+    vals = [Fraction(rng.randint(-512, 512), 8) for _ in range(ns[0] * ns[1] * ns[2])]
+    cells = [(a, b, c) for a in range(ns[0] - 1) for b in range(ns[1] - 1) for c in range(ns[2] - 1)]
+    if not full_cells and len(cells) > 6:
+        cells = rng.sample(cells, 6)
+    targets = []
+    for cell in cells:                                  # strictly inside every cell
+        targets.append(tuple(interp_coord(rng, g, c, "in") for g, c in zip(grids, cell)) + ("cell",))
+    for _ in range(3):                                  # exactly at a node
+        cell = rng.choice(cells)
+        targets.append(tuple(interp_coord(rng, g, c, "node") for g, c in zip(grids, cell)) + ("node",))
+    for _ in range(3):                                  # on a cell face / edge: some coordinates at nodes
+        cell = rng.choice(cells)
+        kinds = [rng.choice(["node", "in"]) for _ in range(3)]
+        if "node" not in kinds:
+            kinds[rng.randrange(3)] = "node"
+        if "in" not in kinds:
+            kinds[rng.randrange(3)] = "in"
+        targets.append(tuple(interp_coord(rng, g, c, k) for g, c, k in zip(grids, cell, kinds)) + ("face",))
+    for _ in range(3):                                  # first / last node of some axes (grid boundary)
+        cell = rng.choice(cells)
+        kinds = [rng.choice(["first", "last", "in", "node"]) for _ in range(3)]
+        if not ({"first", "last"} & set(kinds)):
+            kinds[rng.randrange(3)] = rng.choice(["first", "last"])
+        targets.append(tuple(interp_coord(rng, g, c, k) for g, c, k in zip(grids, cell, kinds)) + ("boundary",))
+    corner = [rng.choice(["first", "last"]) for _ in range(3)]    # a corner of the grid
+    targets.append(tuple(interp_coord(rng, g, 0, k) for g, k in zip(grids, corner)) + ("corner",))
+    rng.shuffle(targets)
+    return grids, vals, targets
+
+
+def interp_outside_coord(rng, g):
+    """a coordinate outside (or inside) the axis, at most 4 spacings away, multiples of 1/16 spacing"""
+    r = rng.random()
+    if r < 0.4:
+        return g[0] - (g[1] - g[0]) * Fraction(rng.randint(1, 64), 16)
+    if r < 0.8:
+        return g[-1] + (g[-1] - g[-2]) * Fraction(rng.randint(1, 64), 16)
+    c = rng.randrange(len(g) - 1)
+    return g[c] + (g[c + 1] - g[c]) * Fraction(rng.randint(0, 16), 16)
+
+
+def interp_exact(x):
+    """a float as an exact 'num/den' string (no float comparison anywhere)"""
+    x = float(x)
+    if x != x or x in (float("inf"), float("-inf")):
+        return repr(x)
+    return interp_q(Fraction(x))
+
+
+def corr_interp(ctx):
+    """Model/Interp.lean vs the real code, exactly:
+      1. aurel.numerical.interpolate(method='linear') at targets inside the grid (every cell, nodes, faces,
+         first/last nodes, corners) == Interp.interp3
+      2. scipy's RegularGridInterpolator constructed exactly as aurel constructs it
+         (bounds_error=False, fill_value=None), at targets OUTSIDE the grid (aurel.interpolate refuses these;
+         theorem interp3_trilinear speaks about them) == Interp.interp3
+      3. scipy's compiled find_indices (index, norm_distance; batches, so with the search hint carried over)
+         == Interp.findInterval / normDist
+    """
+    import scipy.interpolate
+    from aurel import numerical
+    rng = ctx.rng
+    npoints = ctx.budget(200, 1000)
+
+    # ---- 1. the real aurel function, targets inside the grid
+    cases, lines, tags = [], [], {}
+    while len(lines) < npoints:
+        grids, vals, targets = interp_case(rng, True)
+        cases.append((grids, vals, targets, len(lines)))
+        head = "interp3 %s|%s|" % ("|".join(",".join(interp_q(q) for q in g) for g in grids),
+                                   ",".join(interp_q(q) for q in vals))
+        for (x, y, z, tag) in targets:
+            lines.append(head + "%s %s %s" % (interp_q(x), interp_q(y), interp_q(z)))
+            tags[tag] = tags.get(tag, 0) + 1
+    outs = ctx.run_driver("Driver/C20Interp.lean", lines)
+    bad, shapes = [], {}
+    for grids, vals, targets, off in cases:
+        g = tuple(np.array([float(q) for q in ax]) for ax in grids)
+        val = np.array([float(q) for q in vals]).reshape(tuple(len(ax) for ax in grids))
+        npt = len(targets)
+        shape = (npt,) if (npt % 2 or rng.random() < 0.5) else (2, npt // 2)
+        shapes[len(shape)] = shapes.get(len(shape), 0) + 1
+        t = tuple(np.array([float(p[d]) for p in targets]).reshape(shape) for d in range(3))
+        try:
+            res = numerical.interpolate(val, g, t, method="linear")
+            code = [interp_exact(v) for v in np.asarray(res).reshape(-1)] if res.shape == shape else \
+                ["shape %s" % (res.shape,)] * npt
+        except Exception as ex:  # noqa
+            code = ["%s: %s" % (type(ex).__name__, str(ex)[:80])] * npt
+        for n, c in enumerate(code):
+            out = outs[off + n] if off + n < len(outs) else "missing"
+            model = interp_q(F(out[3:])) if out.startswith("ok ") else out
+            if c != model:
+                bad.append((lines[off + n][:300], "code %s, model %s" % (c, out)))
+    ctx.cov["interp_points"] = len(lines)
+    ctx.cov["interp_grids"] = len(cases)
+    ctx.cov["interp_target_kinds"] = tags
+    ctx.cov["interp_target_array_ndim"] = shapes
+    ctx.sample({"line": lines[0][:300], "model": outs[0] if outs else None})
+    ctx.obligation("correspondence: numerical.interpolate(method='linear') == Model/Interp.interp3 EXACTLY "
+                   "(%d targets on %d non-uniform dyadic grids: every cell, nodes, faces, first/last nodes, corners)"
+                   % (len(lines), len(cases)), not bad, "; ".join("%s -> %s" % b for b in bad[:4]),
+                   kind="correspondence")
+
+    # ---- 2. outside the grid: the interpolator object aurel builds (interpolate itself refuses such targets)
+    nout = ctx.budget(60, 300)
+    lines2, code2 = [], []
+    while len(lines2) < nout:
+        grids, vals, _ = interp_case(rng, False)
+        g = tuple(np.array([float(q) for q in ax]) for ax in grids)
+        val = np.array([float(q) for q in vals]).reshape(tuple(len(ax) for ax in grids))
+        pts = [tuple(interp_outside_coord(rng, ax) for ax in grids) for _ in range(6)]
+        head = "interp3 %s|%s|" % ("|".join(",".join(interp_q(q) for q in ax) for ax in grids),
+                                   ",".join(interp_q(q) for q in vals))
+        lines2 += [head + " ".join(interp_q(q) for q in p) for p in pts]
+        try:
+            it = scipy.interpolate.RegularGridInterpolator(g, val, method="linear", bounds_error=False,
+                                                           fill_value=None)
+            code2 += [interp_exact(v) for v in it(np.array([[float(q) for q in p] for p in pts]))]
+        except Exception as ex:  # noqa
+            code2 += ["%s: %s" % (type(ex).__name__, str(ex)[:80])] * len(pts)
+    outs2 = ctx.run_driver("Driver/C20Interp.lean", lines2)
+    bad2 = []
+    for line, c, out in zip(lines2, code2, outs2 + ["missing"] * (len(lines2) - len(outs2))):
+        model = interp_q(F(out[3:])) if out.startswith("ok ") else out
+        if c != model:
+            bad2.append((line[:300], "code %s, model %s" % (c, out)))
+    ctx.cov["interp_outside_points"] = len(lines2)
+    ctx.obligation("correspondence: RegularGridInterpolator(method='linear', bounds_error=False, fill_value=None) "
+                   "at targets outside the grid (linear extrapolation) == Model/Interp.interp3 EXACTLY (%d targets)"
+                   % len(lines2), not bad2, "; ".join("%s -> %s" % b for b in bad2[:4]), kind="correspondence")
+
+    # ---- 3. the compiled interval search (batches: the hint of the previous point is carried over)
+    bad3, lines3, code3 = [], [], []
+    try:
+        from scipy.interpolate._rgi_cython import find_indices
+    except Exception as ex:  # noqa
+        find_indices = None
+        ctx.cov["interp_find_indices"] = "not importable: %s" % type(ex).__name__
+    if find_indices is not None:
+        nfind = ctx.budget(150, 600)
+        while len(lines3) < nfind:
+            ax = interp_grid(rng, rng.randint(2, 7))
+            xs = [interp_outside_coord(rng, ax) for _ in range(8)] + [ax[0], ax[-1], rng.choice(ax)]
+            rng.shuffle(xs)
+            idx, nd = find_indices((np.array([float(q) for q in ax]),), np.array([[float(q) for q in xs]]))
+            for x, i, t in zip(xs, idx[0], nd[0]):
+                lines3.append("find %s|%s" % (",".join(interp_q(q) for q in ax), interp_q(x)))
+                code3.append("ok %d %s" % (int(i), interp_exact(t)))
+        outs3 = ctx.run_driver("Driver/C20Interp.lean", lines3)
+        for line, c, out in zip(lines3, code3, outs3 + ["missing"] * (len(lines3) - len(outs3))):
+            if c != out:
+                bad3.append((line[:200], "code %s, model %s" % (c, out)))
+        ctx.cov["interp_find_points"] = len(lines3)
+        ctx.obligation("correspondence: scipy find_indices (index, norm_distance; below/inside/above the axis, at "
+                       "nodes, batches with carried search hint) == Model/Interp.findInterval/normDist EXACTLY "
+                       "(%d points)" % len(lines3), not bad3, "; ".join("%s -> %s" % b for b in bad3[:4]),
+                       kind="correspondence")
+    return bad + bad2 + bad3
+
+
+# --------------------------------------------------------------------------
 # sentinel / search on the REAL code
 
 def s_orthonormal(ctx, lmax):
@@ -809,23 +1039,32 @@ def search(ctx, deep=False):
 
 
 def run(ctx):
-    ctx.trusted += ["Lean 4.33 kernel; axioms propext, Classical.choice, Quot.sound; Mathlib (Complex.exp, Real.sqrt, geom_sum)",
+    ctx.trusted += ["Lean 4.33 kernel; axioms propext, Classical.choice, Quot.sound; Mathlib (Complex.exp, Real.sqrt, geom_sum, "
+                    "interval integrals / fundamental theorem of calculus, Polynomial.derivative)",
+                    "Model/Interp.lean is hand-written after scipy 1.18.1 (_rgi.py, _rgi_cython.pyx, _poly_common.pxi); tied to "
+                    "numerical.interpolate(method='linear'), to the extrapolating interpolator object and to the compiled "
+                    "find_indices EXACTLY on dyadic data (power-of-two spacings: all float operations exact)",
                     "Model/Harm.lean is hand-written; tied to maths.sYlm by a FLOAT comparison (1e-12 relative) at rational "
                     "points of the unit circle, to the Psi4_lm grids bitwise, to interpolate's refusal decision exactly",
                     "Spec/Harm.lean (Rodrigues formula, associated Legendre with Condon-Shortley phase) is the textbook definition",
                     "numpy/scipy: cos, sin, exp, sqrt, sc.binom, sc.factorial on small integers; RegularGridInterpolator",
                     "sentinel oracles: scipy eval_jacobi, leggauss, sph_harm_y; sympy Rotation.d (self-check)"]
-    ctx.assumptions += ["NOT proven: orthonormality in l, norm 1, spin-0 identification for l > 4, scipy interpolation exactness, "
-                        "convergence of the theta midpoint rule and of Psi4_lm — numerical sentinel only",
+    ctx.assumptions += ["orthonormality in l and norm 1 are proven for |s| <= 2 and l, l' <= 12 ONLY (kernel-decided table; "
+                        "norm 1 at m = +-l for all l); beyond: numerical sentinel only",
+                        "NOT proven: a bound on the theta-midpoint quadrature error thetaDefect (closed form only for single "
+                        "sine modes), hence the convergence of the round trip and of Psi4_lm — numerical sentinel only",
+                        "interpolation: only method='linear' on strictly ascending axes with >= 2 nodes is modelled; real "
+                        "(non-dyadic) data are subject to round-off, which is not modelled",
                         "floating-point round-off is not modelled (exact real/complex arithmetic in the theorems)",
                         "NaN inputs of interpolate are outside the model (Rat has no NaN)"]
     # prove + audit
     ctx.prove(MODULE, THEOREMS)
+    ctx.prove(MODULE_B, THEOREMS_B, timeout=2400)
     ctx.forbidden_scan(LEAN_FILES)
     if ctx.tier == "thorough":
-        ctx.leanchecker([MODULE])
+        ctx.leanchecker([MODULE, MODULE_B])
     # correspondence
-    for fn in (corr_ylm, corr_grid, corr_modes, corr_history, corr_bounds):
+    for fn in (corr_ylm, corr_grid, corr_modes, corr_history, corr_bounds, corr_interp):
         try:
             fn(ctx)
         except Exception as ex:  # noqa
@@ -874,30 +1113,59 @@ def replay(ctx, obj):
 
 MANIFEST = {
     "category": "proof",
-    "technique": "Lean 4 theorems about a hand-written rational model of maths.sYlm, the Psi4_lm angular grids and "
-                 "interpolate's bounds check (omega / ring / geometric sum of a root of unity in Mathlib / kernel-decided "
-                 "tables), tied to the code by float (1e-12) and exact correspondence; numerical sentinel for the analytic parts",
+    "technique": "Lean 4 theorems about a hand-written rational model of maths.sYlm, the Psi4_lm angular grids, "
+                 "interpolate's bounds check and scipy's linear RegularGridInterpolator (omega / ring / geometric sum of a "
+                 "root of unity / interval integrals and the fundamental theorem of calculus in Mathlib / Polynomial "
+                 "derivatives / kernel-decided integer tables), tied to the code by float (1e-12) and exact "
+                 "correspondence; numerical sentinel for what remains analytic",
     "text": "PARTIAL proof. Proven for all parameters: (T1) every r of sYlm's loop has legal binomial arguments and "
             "non-negative exponents (no negative power at the poles), every r outside has a vanishing binomial (sum "
             "complete), l<|s| gives 0, factorial() is n! on all arguments that occur; (T2) the phi grid of Psi4_lm "
             "integrates e^{i(m-m')phi} exactly to 2pi delta for |m-m'|<=Nphi (sharp: Nphi+1 aliases to -2pi), hence "
-            "harmonics with different m are exactly orthogonal on the extraction grid for any l; (T3) at s=0 the closed "
-            "form is (-1)^m times the standard Y_lm with associated Legendre functions for l<=4 (code follows Goldberg 1967 "
-            "eq 3.1: no Condon-Shortley phase); (T4) conj(sYlm)=(-1)^(s+m) (-s)Y_(l,-m) for all s,l,m; (T5) coefficient and "
-            "reconstruction maps are linear, depend only on the arguments of the call, and their composition is multiplication "
-            "by the discrete Gram matrix; (T6) "
-            "interpolate refuses exactly the targets outside [min,max] of some axis (boundary accepted) and names the first "
-            "such axis. NOT proven, watched only numerically on the real code: orthonormality in l and the norm "
-            "(Gauss-Legendre x trapezoid quadrature of all pairs up to lmax 6/10), spin-0 reduction beyond l=4 (scipy "
-            "sph_harm_y), an independent Wigner-d/Jacobi evaluation of every (s,l,m), round trip of band-limited fields, "
-            "RegularGridInterpolator exactness at nodes / on trilinear fields, convergence of rel['Psi4_lm'] on an injected "
-            "pure mode; absence of hidden state in sYlm_coefficients / sYlm_reconstruct (several samplings of one array "
-            "shape — midpoint, Gauss-Legendre x offset phi, jittered — in one process, varying order, first revisited; on "
-            "the Gauss-Legendre grid the round trip and the Gram matrix are exact to round-off).",
-    "note": "Trusted: Lean kernel + propext/Classical.choice/Quot.sound; the hand-written model (sYlm tie is a float "
-            "comparison at 1e-12 because cos/sin/sqrt/pi are transcendental: Pythagorean points, s in -2..2, l<=6 quick / "
-            "10 thorough, all |m|<=l and |m|>l, l<|s|; grids/weights bitwise; bounds decisions exact on dyadic rationals); "
-            "Spec/Harm.lean as the definition of P_l^m; numpy/scipy special functions. roundtrip_partial carries the "
-            "undischarged hypothesis DiscreteOrthonormal (false exactly: the theta midpoint rule has O(1/N^2) error). "
-            "NaN targets and IEEE round-off are outside the model.",
+            "harmonics with different m are exactly orthogonal on the extraction grid for any l; (T3/T16) at s=0 the closed "
+            "form is (-1)^m times the standard Y_lm with associated Legendre functions (Rodrigues) for ALL l, |m|<=l "
+            "(code follows Goldberg 1967 eq 3.1: no Condon-Shortley phase); (T4) conj(sYlm)=(-1)^(s+m) (-s)Y_(l,-m) for "
+            "all s,l,m; (T5) coefficient and reconstruction maps are linear, depend only on the arguments of the call, "
+            "and their composition is multiplication by the discrete Gram matrix; (T6) interpolate refuses exactly the "
+            "targets outside [min,max] of some axis (boundary accepted) and names the first such axis. "
+            "CONTINUOUS ORTHONORMALITY (iterated interval integrals over theta in [0,pi], phi in [0,2pi], weight sin theta): "
+            "(T7) int_0^2pi e^{id phi} = 2pi delta_d0 for all integers d and the half-angle Beta integral "
+            "int_0^pi cos(th/2)^2p sin(th/2)^2q sin th = 2 p! q!/(p+q+1)! for all p,q; (T8) for ALL integers s,l,m,l',m' the "
+            "inner product of sY_lm and sY_l'm' equals delta_mm' * sqrt(R/pi) sqrt(R'/pi) 2pi * 2 Z/(l+l'+1)! with an explicit "
+            "integer double sum Z (so orthogonality in m holds for all degrees); (T9) ORTHONORMALITY IN l AND NORM 1 FOR "
+            "|s|<=2 AND l,l'<=12 ONLY (kernel-decided integer table of 5x13x13x25 entries; default lmax of Psi4_lm is 8), "
+            "including inner product 0 for the vanishing l<|s|, |m|>l; (T10) norm 1 at the extreme orders m=+-l for every "
+            "spin and EVERY l>=|s|, and invariance under (s,m,m')->(-s,-m,-m'). DISCRETE GRAM MATRIX on the Psi4_lm grid: "
+            "(T11) for all s,l,l' and |m-m'|<=Nphi it equals delta_mm' times the theta MIDPOINT sum of the very integrand "
+            "of T8, i.e. continuous value + theta-midpoint quadrature error thetaDefect; (T12) for |s|<=2, l,l'<=12: "
+            "identity on admissible modes + delta_mm' thetaDefect; (T13) round trip on the concrete index types (keys of "
+            "the coefficient dictionary, nodes of the grid), lmax<=12, lmax<=Ntheta: sYlm_coefficients(sYlm_reconstruct(a)) "
+            "at (l,m) = a_lm (0 if l<|s|) + sum_l' thetaDefect(l,m,l') a_l'm — only equal m mix, and the hypothesis of "
+            "roundtrip_partial is reduced to exactness of the theta rule; (T14) that hypothesis (DiscreteOrthonormal) is "
+            "FALSE on the code's grid at every resolution: the discrete squared norm of 0Y00 is (pi/2M)/sin(pi/2M) > 1, "
+            "M=Ntheta+1, and likewise for the spin Psi4_lm uses: the discrete squared norm of (-2)Y22 is > 1 for every Ntheta>=2; (T15) closed form of the midpoint rule and of the integral on every sine mode sin(k theta), "
+            "relative excess u/sin u - 1 > 0, u = k pi/2M, for odd k < 2M. INTERPOLATION (T17, hand model of scipy 1.18 "
+            "linear RegularGridInterpolator as numerical.interpolate calls it, strictly ascending axes with >= 2 nodes): "
+            "the cell search returns the cell containing the target whatever the carried-over hint; exact at every "
+            "node incl. boundary; nodal values of a trilinear field a0+a1x+a2y+a3z+a4xy+a5xz+a6yz+a7xyz are reproduced "
+            "exactly at every target (also by the linear continuation outside); inside the grid the value lies between "
+            "the bounds of the 8 corner values. "
+            "NOT proven, watched only numerically on the real code: orthogonality in l when l or l' > 12 "
+            "(Gauss-Legendre x trapezoid quadrature of all pairs up to lmax 6/10 as cross-check), a bound on thetaDefect "
+            "and hence the convergence rate of the round trip and of rel['Psi4_lm'] on an injected pure mode (which also "
+            "involves the interpolation error of non-trilinear fields), interpolation methods other than linear, "
+            "IEEE round-off; independent cross-checks kept: Wigner-d/Jacobi evaluation of every (s,l,m), scipy "
+            "sph_harm_y at s=0, absence of hidden state in sYlm_coefficients / sYlm_reconstruct (several samplings of one "
+            "array shape in one process; on the Gauss-Legendre grid round trip and Gram matrix exact to round-off).",
+    "note": "Trusted: Lean kernel + propext/Classical.choice/Quot.sound; Mathlib; the hand-written models (sYlm tie is a "
+            "float comparison at 1e-12 because cos/sin/sqrt/pi are transcendental: Pythagorean points, s in -2..2, l<=6 "
+            "quick / 10 thorough, all |m|<=l and |m|>l, l<|s|; grids/weights bitwise; bounds decisions exact on dyadic "
+            "rationals; linear interpolation, its extrapolation branch and scipy's compiled find_indices EXACTLY on dyadic "
+            "data with power-of-two spacings); Spec/Harm.lean as the definition of P_l^m; numpy/scipy special functions. "
+            "The continuous inner product is the iterated interval integral of the model function sYlmC (real "
+            "normalisation x polynomial in cos(theta/2), sin(theta/2) x e^{im phi}); the orthonormality table covers "
+            "l,l'<=12 only and says so in the theorem name (orthonormal_upto_12). roundtrip_partial still carries its "
+            "hypothesis DiscreteOrthonormal, now PROVEN false on the code's grid (discrete_orthonormal_is_false) and "
+            "replaced by the closed-form defect (roundtrip_defect_closed_form). NaN targets and IEEE round-off are "
+            "outside the model.",
 }
